@@ -49,6 +49,9 @@ CONSTANTS NI, NK, NL,       \* number of client IPs, access keys, locations
           Interleave,       \* FALSE: nothing runs between CollectBegin and CollectLocked (sequential histories)
           WithTraffic,      \* TRUE: Probe/Packet steps (no tunnel-time effect) are generated too
           WithUnknownStop,  \* TRUE: a closed association may call RemoveNatEntry a second time (unknown-client branch)
+          Forms,            \* representations of a client address the callers may hand over: 1 = 16-byte net.TCPAddr/UDPAddr
+                            \* (peer of a dual-stack socket), 2 = 4-byte form (peer of an IPv4 socket), 3 = string-backed
+                            \* net.Addr.  The client's IDENTITY is the IP: the form only appears in the history `tr`.
           LocMaps           \* set of IP -> location maps a behaviour may start with (AllLocMaps / CanonLocMaps)
 
 IPs == 1..NI
@@ -202,11 +205,11 @@ Step(e) == /\ Bounded /\ nops' = nops + 1 /\ tr' = Append(tr, e)
 Other   == last' = NoScrape
 
 Open(ip)     == MayRun /\ nconn < MaxConn /\ OpenCore(nconn + 1, ip) /\ Other
-                /\ Step([a |-> "Open", c |-> nconn + 1, ip |-> ip])
+                /\ \E f \in Forms : Step([a |-> "Open", c |-> nconn + 1, ip |-> ip, f |-> f])
 Auth(c, k)   == MayRun /\ AuthCore(c, k) /\ Other /\ Step([a |-> "Auth", c |-> c, key |-> k])
 Close(c)     == MayRun /\ CloseCore(c) /\ Other /\ Step([a |-> "Close", c |-> c])
 NatAdd(ip,k) == MayRun /\ nconn < MaxConn /\ NatAddCore(nconn + 1, ip, k) /\ Other
-                /\ Step([a |-> "NatAdd", c |-> nconn + 1, ip |-> ip, key |-> k])
+                /\ \E f \in Forms : Step([a |-> "NatAdd", c |-> nconn + 1, ip |-> ip, key |-> k, f |-> f])
 NatRemove(c) == MayRun /\ NatRemoveCore(c) /\ Other /\ Step([a |-> "NatRemove", c |-> c])
 RemoveAgain(c) == MayRun /\ RemoveAgainCore(c) /\ Other /\ Step([a |-> "RemoveAgain", c |-> c])
 Probe(c)     == MayRun /\ WithTraffic /\ ProbeCore(c) /\ Other /\ Step([a |-> "Probe", c |-> c])
